@@ -78,6 +78,46 @@ def first_order(rf):
     return cn.get(0, z), cn.get(1, z), cd.get(0, z), cd.get(1, z)
 
 
+def _loop_temps_written_out(fn):
+    """copy of ``fn`` in which a local bound once, inside a ``for`` body, to a call-only expression and read in later
+    statements of that body is written out where it is read (``gain = abs(f.freq_response(freq)) ; out.append(f / gain)``
+    reads ``out.append(f / abs(f.freq_response(freq)))``); line numbers are kept"""
+    import copy
+    from ..core import set_parents
+    new = copy.deepcopy(fn)
+    stores = {}
+    for n in ast.walk(new):
+        if isinstance(n, ast.Name) and isinstance(n.ctx, (ast.Store, ast.Del)):
+            stores[n.id] = stores.get(n.id, 0) + 1
+    for loop in [n for n in ast.walk(new) if isinstance(n, ast.For)]:
+        i = 0
+        while i < len(loop.body):
+            st = loop.body[i]
+            if isinstance(st, ast.Assign) and len(st.targets) == 1 and isinstance(st.targets[0], ast.Name) \
+                    and stores.get(st.targets[0].id) == 1 and i + 1 < len(loop.body):
+                v = st.targets[0].id
+                uses_after = sum(1 for s_ in loop.body[i + 1:] for n in ast.walk(s_) if isinstance(n, ast.Name) and n.id == v)
+                uses_all = sum(1 for n in ast.walk(new) if isinstance(n, ast.Name) and n.id == v and isinstance(n.ctx, ast.Load))
+                operands = {n.id for n in ast.walk(st.value) if isinstance(n, ast.Name)}
+                rebound = any(isinstance(n, ast.Name) and n.id in operands and isinstance(n.ctx, ast.Store)
+                              for s_ in loop.body[i + 1:] for n in ast.walk(s_))
+                if uses_after == uses_all == 1 and not rebound:
+                    class _S(ast.NodeTransformer):
+                        def visit_Name(self, n):
+                            if n.id == v and isinstance(n.ctx, ast.Load):
+                                return ast.copy_location(copy.deepcopy(st.value), n)
+                            return n
+                    for k in range(i + 1, len(loop.body)):
+                        loop.body[k] = _S().visit(loop.body[k])
+                    del loop.body[i]
+                    continue
+            i += 1
+    ast.fix_missing_locations(new)
+    set_parents(new)
+    new._parent = getattr(fn, "_parent", None)
+    return new
+
+
 def run(chk, repo):
     fmod = repo.mod(LF)
     WF = lambda q: "%s:%s" % (fmod.relpath, q)
@@ -366,7 +406,7 @@ def run(chk, repo):
                               "exp(-bandwidth); klapuri = CascadeFilter(reson(freq, 2*bandwidth) for reson in [z_exp, "
                               "poles_exp] * 2)")
     for sname in ("sampled", "slaney"):
-        fn = repo.strategy(LAu, "gammatone", sname).node
+        fn = _loop_temps_written_out(repo.strategy(LAu, "gammatone", sname).node)
         W = WA("gammatone[%s]" % sname)
         env = {"z": x ** -1}
         den = None
